@@ -36,6 +36,18 @@ def tree_hash(repo):
         h.update(os.path.relpath(f, repo).encode())
         with open(f, 'rb') as fh:
             h.update(fh.read())
+    # the machinery itself is part of the key: a changed harness must not reuse an old result
+    mach = []
+    for d in ('kx', 'nx', 'lib'):
+        for root, dirs, fs in os.walk(os.path.join(VERIF, d)):
+            dirs[:] = [x for x in dirs if x != '__pycache__']
+            for f in fs:
+                if not f.endswith('.pyc'):
+                    mach.append(os.path.join(root, f))
+    for f in sorted(mach):
+        h.update(os.path.relpath(f, VERIF).encode())
+        with open(f, 'rb') as fh:
+            h.update(fh.read())
     return h.hexdigest()[:16]
 
 
